@@ -64,7 +64,7 @@ Print Assumptions C03_wg_counts_live.
 (* Tie: a trace the acceptor accepts is an execution of the model, and if it ends in a terminal model state nothing of that
    Send is left running. *)
 Theorem C03_accepted_complete_no_goroutine : forall beh e0 want roots c0 tr a, roots_ok roots ->
-  run_trace beh e0 want {| a_st := init roots c0; a_recv := 0; a_pend := false |} 0%N tr = (a, None) ->
+  run_trace beh e0 want {| a_st := init roots c0; a_recv := 0; a_pend := false; a_rets := [] |} 0%N tr = (a, None) ->
   is_terminal (a_st a) = true ->
   wg (a_st a) = 0 /\ forall t, In t (tasks (a_st a)) -> exists f, tstage t = SDone f.
 Proof. exact accepted_complete_no_goroutine. Qed.
